@@ -21,6 +21,7 @@
 
 #include <blocc/expression_builtin.h>
 #include <blocc/value.h>
+#include <blocc/verif_hook.h>
 
 namespace bloc
 {
@@ -41,7 +42,7 @@ public:
 
   const Type& type(Context& ctx) const override { return v.type(); }
 
-  Value& value(Context& ctx) const override { return v; }
+  Value& value(Context& ctx) const override { BLOC_VERIF_POINT(BLOC_VP_NULLNODE, &v); return v; }
 
   /* immutable */
   bool isConst() const override { return true; }
